@@ -184,10 +184,16 @@ def guard_sources(conds, arm_body, target, getter):
             if "Some" in pat:
                 out |= resolve_idents(f[1], arm_body, target, getter)
         elif f[0] == "if" and f[2]:
-            e = f[1]
+            e = strip(f[1])
             # X.is_constant() where X bound from S.degree()
             if e["k"] == "MethodCall" and e["method"] == "is_constant" and not e["args"]:
-                for s in resolve_idents(e["recv"], arm_body, target, getter):
+                srcs = set(resolve_idents(e["recv"], arm_body, target, getter))
+                # the receiver may be bound by a pattern on this very path (`matches!(c.degree(), Some(r) if r.is_constant())`)
+                rn = {n_["path"] for n_ in walk(e["recv"]) if n_["k"] == "Path"}
+                for f2 in list(conds) + extra:
+                    if f2[0] == "iflet" and f2[3] and ({b_["name"] for b_ in walk(f2[1]) if b_["k"] == "PIdent"} & rn):
+                        srcs |= set(resolve_idents(f2[2], arm_body, target, getter))
+                for s in srcs:
                     if s[0] == "sub":
                         out.add(("const", s[1]))
             # ARGS.iter().all(|a| <a.degree() known and constant>)
